@@ -1,7 +1,7 @@
 (* C19/Properties.v — property theorems only. *)
 From Flocq Require Import IEEE754.Bits.
 From Coq Require Import Lia Sorting.Sorted.
-From RM Require Import C08.Proofs C19.Model C19.Proofs C19.Pipeline C19.Proofs2.
+From RM Require Import C08.Proofs C19.Model C19.Proofs C19.Pipeline C19.Proofs2 C19.Source C19.Proofs3.
 Open Scope Z_scope.
 
 (* Every reported flip differs from the examined value in exactly one bit inside the
@@ -475,4 +475,104 @@ Example c19_nonvacuous_dump :
   dump_adj (analyze_dinstr nv_di) 9 33281 e (Some pc) = GAdjNonCanonical (140737488351232 + 281474976710656) /\
   map f_addr (dump_pipeline (analyze_dinstr nv_di) 9 33281 e (Some pc) rs) = [140737488351232] /\
   dump_adj (analyze_dinstr nv_di) 9 33283 e (Some pc) = GAdjNone.      (* the same record from Android: no adjustment *)
+Proof. repeat split; vm_compute; reflexivity. Qed.
+
+(* ======================================================================================================
+   Round 5, second pass: the function bodies COMPILED from the Rust source (translate/c19_src.py -> Gen.C19Src,
+   executed by C19/Source.v, which is what the correspondence run executes).  Until now try_bit_flips,
+   calculate_heuristics, the adjusted-address helpers, the GPF arms and get_crash_address were pinned textually. *)
+
+(* (1) For ANY try_bit_flips body inside the translator's grammar (early exits; loop items that push under
+   `possible_address == k` / `lookup + permission` guards, as if / else-if chains) whose `== k` guards all have k = 0:
+   every candidate is the examined value with one bit of lo..hi flipped, and is 0 or mapped with the access allowed *)
+Theorem c19_try_grammar_sound : forall (R F : Type) early items (lookup : Z -> option R) allowed (mk : Z -> Z -> F),
+  items_ok items = true -> forall a lo hi f,
+  In f (try_gen early items lookup allowed mk a lo hi) ->
+  exists j, lo <= j < hi /\ f = mk a (Z.lxor a (2 ^ j)) /\
+            (Z.lxor a (2 ^ j) = 0 \/ exists mi, lookup (Z.lxor a (2 ^ j)) = Some mi /\ allowed mi = true).
+Proof. exact (@try_gen_sound). Qed.
+Print Assumptions c19_try_grammar_sound.
+
+(* ... and if one of the early exits is the lookup + permission test on the examined value itself, nothing is reported
+   for an accessible examined value *)
+Theorem c19_try_grammar_none_when_accessible : forall (R F : Type) early items (lookup : Z -> option R) allowed (mk : Z -> Z -> F),
+  early_ok early = true -> forall a lo hi,
+  (exists mi, lookup a = Some mi /\ allowed mi = true) -> try_gen early items lookup allowed mk a lo hi = [].
+Proof. exact (@try_gen_none_when_accessible). Qed.
+Print Assumptions c19_try_grammar_none_when_accessible.
+
+(* the body as it is in the source passes both side conditions (re-checked on the regenerated lists on every run) *)
+Theorem c19_try_src_side_conditions : items_ok TRY_ITEMS = true /\ early_ok TRY_EARLY = true.
+Proof. exact try_side_conditions. Qed.
+Print Assumptions c19_try_src_side_conditions.
+
+(* hence, on the compiled try_bit_flips (no hand-written model involved): *)
+Theorem c19_try_src_sound : forall a reg br ctx rs op f,
+  In f (try_bit_flips_src a reg br ctx rs op) ->
+  exists j, fst (br_bounds (br_of br)) <= j < snd (br_bounds (br_of br)) /\
+            f_addr f = Z.lxor a (2 ^ j) /\ f_reg f = reg /\
+            (f_addr f = 0 \/ exists mi, lookup_region rs (f_addr f) = Some mi /\ possibly_allowed op mi = true).
+Proof. exact try_src_sound. Qed.
+Print Assumptions c19_try_src_sound.
+
+Theorem c19_try_src_none_when_accessible : forall a reg br ctx rs op mi,
+  lookup_region rs a = Some mi -> possibly_allowed op mi = true -> try_bit_flips_src a reg br ctx rs op = [].
+Proof. exact try_src_none_when_accessible. Qed.
+Print Assumptions c19_try_src_none_when_accessible.
+
+(* (2) generated = model: for the source as it is, the compiled bodies ARE the hand-written model all theorems above
+   are about (an edit of the Rust functions changes the left-hand sides; an edit that changes behaviour breaks these) *)
+Theorem c19_try_src_refines : forall a reg br ctx rs op,
+  try_bit_flips_src a reg br ctx rs op = try_bit_flips a reg (br_of br) ctx rs op.
+Proof. exact try_src_refines. Qed.
+Print Assumptions c19_try_src_refines.
+
+Theorem c19_heuristics_src_refines : forall new orig nc ctx, heuristics_src new orig nc ctx = heuristics new orig nc ctx.
+Proof. exact heuristics_src_refines. Qed.
+Print Assumptions c19_heuristics_src_refines.
+
+Theorem c19_check_src2_refines : forall c address adj op ctx iregs rs,
+  check_src2 c address adj op ctx iregs rs = check_src c address adj op ctx iregs rs.
+Proof. exact check_src2_refines. Qed.
+Print Assumptions c19_check_src2_refines.
+
+(* represents_general_protection_fault (match arms, first match wins) over the crash reason of the raw record *)
+Theorem c19_gpf_src_refines : forall c o code flags nparams info0 a,
+  g_gpf o (greason_of c o code flags nparams info0) a = is_gpf (os_class o) (reason_of c o code flags nparams info0) a.
+Proof. exact gpf_src_refines. Qed.
+Print Assumptions c19_gpf_src_refines.
+
+(* MinidumpException::get_crash_address *)
+Theorem c19_crash_address_src_refines : forall c o code nparams info0 info1 excaddr,
+  g_crash_address c o code nparams (fun k => if k =? 0 then info0 else if k =? 1 then info1 else 0) excaddr
+  = crash_address c o code nparams info1 excaddr.
+Proof. exact crash_address_src_refines. Qed.
+Print Assumptions c19_crash_address_src_refines.
+
+(* try_detect_null_pointer_in_disguise, try_get_non_canonical_crash_address and the order of the two recoveries *)
+Theorem c19_adjusted_src_refines : forall c o code flags nparams info0 address oa,
+  adjusted_src c o (greason_of c o code flags nparams info0) address oa
+  = adjusted_of c (os_class o) (reason_of c o code flags nparams info0) address oa.
+Proof. exact adjusted_src_refines. Qed.
+Print Assumptions c19_adjusted_src_refines.
+
+(* the whole path from the raw records, for an arbitrary instruction analysis: c19_the_property and every other
+   theorem about dump_pipeline / dump_adj is a theorem about what the correspondence run executes *)
+Theorem c19_dump_pipeline_src_refines : forall analysis arch pid e pc rs,
+  dump_pipeline_src analysis arch pid e pc rs = dump_pipeline analysis arch pid e pc rs.
+Proof. exact dump_pipeline_src_refines. Qed.
+Print Assumptions c19_dump_pipeline_src_refines.
+
+Theorem c19_dump_adj_src_refines : forall analysis arch pid e pc,
+  dump_adj_src analysis arch pid e pc = dump_adj analysis arch pid e pc.
+Proof. exact dump_adj_src_refines. Qed.
+Print Assumptions c19_dump_adj_src_refines.
+
+Example c19_nonvacuous_src :
+  let rs := [region_of_info 140737488351232 4096 4] in
+  let pc := nv_pc (140737488351232 + 281474976710656 - 8) in
+  let e := {| er_code := 11; er_flags := 128; er_nparams := 0; er_info0 := 0; er_info1 := 0; er_address := 0 |} in
+  dump_adj_src (analyze_dinstr nv_di) 9 33281 e (Some pc) = GAdjNonCanonical (140737488351232 + 281474976710656) /\
+  map f_addr (dump_pipeline_src (analyze_dinstr nv_di) 9 33281 e (Some pc) rs) = [140737488351232] /\
+  map f_addr (try_bit_flips_src 4112 None GBrAmd64Canononical None [region_of_info 8192 8192 4] MRead) = [12304].
 Proof. repeat split; vm_compute; reflexivity. Qed.
